@@ -268,6 +268,15 @@ theorem outLang_ensure_slash (b : Backend) (p1 : Str) : OutLang (Gen.PATH_REQUOT
   · exact h
   · exact outLang_cons (path_safe47 b) (by decide) h
 
+/-- rooting a path (the argument of `normalize_path` in `with_path` since fix 7cae68c) stays in the output language -/
+theorem outLang_rooted (b : Backend) (p : Str) : OutLang (Gen.PATH_REQUOTER.tab b) p →
+    OutLang (Gen.PATH_REQUOTER.tab b) (rooted p) := by
+  intro h
+  unfold rooted
+  split
+  · exact h
+  · exact outLang_cons (path_safe47 b) (by decide) h
+
 end WfLemmas
 
 /-- the auto-encoding constructor produces a well-formed URL -/
@@ -337,14 +346,12 @@ theorem C01_encodeUrl_user_nonempty (e : Env) (s : Str) (u : Url) (p : NetPre) :
 
 theorem C01_withPath_wf (e : Env) (u : Url) (hu : WFUrl e.b u) (path : Str) (hp : PyStr path)
     (keepQuery keepFragment : Bool) : WFUrl e.b (withPath e u path false keepQuery keepFragment) := by
-  unfold withPath
-  simp only [fromParts, Bool.not_false, if_true]
+  rw [withPath_eq]
+  simp only [fromParts]
   constructor
   · apply outLang_ensure_slash e.b
     split
-    · split
-      · exact outLang_normalizePath (path_safe47 e.b) (q_path_quoter e _ hp)
-      · exact q_path_quoter e _ hp
+    · exact outLang_normalizePath (path_safe47 e.b) (outLang_rooted e.b _ (q_path_quoter e _ hp))
     · exact q_path_quoter e _ hp
   · show OutLang _ (if keepQuery = true then u.query else [])
     split
@@ -852,7 +859,11 @@ theorem C01_parent_wf (b : Backend) (u : Url) (hu : WFUrl b u) : WFUrl b (parent
     · exact ⟨hu.path, OutLang.nil, OutLang.nil⟩
     · exact hu
   · refine ⟨?_, OutLang.nil, OutLang.nil⟩
-    exact path_join b _ (fun s hs => path_segs b hu.path s (List.dropLast_subset _ hs))
+    simp only [fromParts]
+    -- "/name" without an authority: the parent is the root "/" (fix 264b96e)
+    split
+    · exact outLang_cons (path_safe47 b) (by decide) OutLang.nil
+    · exact path_join b _ (fun s hs => path_segs b hu.path s (List.dropLast_subset _ hs))
 
 theorem C01_relative_wf (b : Backend) (u : Url) (hu : WFUrl b u) (v : Url) :
     relative u = .ok v → WFUrl b v := by
@@ -930,6 +941,7 @@ theorem C01_build_wf (e : Env) (a : BuildArgs) (u : Url) (henc : a.encoded = fal
   obtain ⟨qs, hqs, h⟩ := bind_ok h
   rw [henc] at h
   rw [if_neg (by decide)] at h
+  obtain ⟨sc, _, h⟩ := bind_ok h   -- the lowered scheme (fix e21485a)
   obtain ⟨netloc, hnl, h⟩ := bind_ok h
   obtain ⟨path, hpath, h⟩ := bind_ok h
   cases h
